@@ -74,10 +74,13 @@ CTORS_FOR_ALPHABET = {0: ("direct", "from_dict", "from_dict_nif"), 1: ("direct",
                       7: ("direct", "from_dict", "from_dict_sig")}
 # "from_dict_sig": keyword-only functions that all come from ONE factory (one shared code object) and carry their parameters
 # in `__signature__` / through `functools.wraps` - what inspect.signature reads, as the library does
+# "direct_onekind" / "from_dict_linked": every variable is of ONE class (all IndepVariable with explicit ancestors; all LinkedVariable,
+# the roots being parameter-less ones): the per-kind listing then spans the whole graph
+CTORS_FOR_ALPHABET[1] = CTORS_FOR_ALPHABET[1] + ("direct_onekind", "from_dict_linked")
 CTORS_FOR_ALPHABET[0] = CTORS_FOR_ALPHABET[0] + ("from_dict_sig",)
 CTORS_FOR_ALPHABET[3] = CTORS_FOR_ALPHABET[3] + ("from_dict_sig",)
 SITE = {"direct": "VariablesDAG()", "from_dict": "VariablesDAG.from_dict", "from_dict_nif": "VariablesDAG.from_dict",
-        "from_dict_sig": "VariablesDAG.from_dict"}
+        "from_dict_sig": "VariablesDAG.from_dict", "direct_onekind": "VariablesDAG()", "from_dict_linked": "VariablesDAG.from_dict"}
 
 
 @functools.lru_cache(None)
@@ -223,6 +226,10 @@ def build_inputs(case):
     for i in pv:
         if ctor == "direct":
             variables[names[i]] = _root_variable(i)
+        elif ctor == "direct_onekind":
+            variables[names[i]] = _root_variable(0)  # IndepVariable for every node
+        elif ctor == "from_dict_linked":
+            variables[names[i]] = _linked("from_dict", tuple(ordered(parents[i]))) if parents[i] else _root_variable(3)
         elif not parents[i]:
             variables[names[i]] = _root_variable(i)
         elif ctor == "from_dict":
@@ -231,7 +238,7 @@ def build_inputs(case):
             variables[names[i]] = _linked(ctor, tuple(ordered(parents[i])))
         else:
             raise ValueError(ctor)
-    if ctor != "direct":
+    if ctor not in ("direct", "direct_onekind"):
         if case.get("extra"):
             raise ValueError("key variants only exist for the direct constructor")
         return variables, None
